@@ -304,6 +304,7 @@ pub fn run() -> SimResult {
                         let typed = chance(1, 3);
                         let mut holder: Option<sonic_rs::Array> = None;
                         if typed {
+                            trace::bump(C::dom_typed_handle_entries);
                             tr!("{} #{}{} (through a typed Array handle)", what, hi, gen::path_str(&p));
                             let taken = libcall("take", || nav_mut(&mut pool[hi].v, &p).expect("path").take())?;
                             holder = Some(libcall("into_array", || taken.into_array())?.ok_or_else(|| mismatch(&what, "into_array", "None on an array".into()))?);
@@ -605,6 +606,7 @@ pub fn run() -> SimResult {
                         let typed = chance(1, 3);
                         let mut holder: Option<sonic_rs::Object> = None;
                         if typed {
+                            trace::bump(C::dom_typed_handle_entries);
                             tr!("{} #{}{} (through a typed Object handle)", what, hi, gen::path_str(&p));
                             let taken = libcall("take", || nav_mut(&mut pool[hi].v, &p).expect("path").take())?;
                             holder = Some(libcall("into_object", || taken.into_object())?.ok_or_else(|| mismatch(&what, "into_object", "None on an object".into()))?);
